@@ -58,6 +58,27 @@ def check_path_links(S, path, lo=0, hi=None, move_starts=True):
     return None
 
 
+POINT_SLOTS = ("start", "end", "control", "control1", "control2", "center", "prx", "pry")
+
+
+def check_no_internal_alias(S, path, limit=400):
+    """no two coordinate slots of a path hold the same Point object (an in-place transform would map a shared point twice)"""
+    segs = path._segments
+    if len(segs) > limit:
+        return None
+    seen = {}
+    for i, seg in enumerate(segs):
+        for n in POINT_SLOTS:
+            v = getattr(seg, n, None)
+            if v is None:
+                continue
+            k = id(v)
+            if k in seen and seen[k] != (i, n):
+                return "segment %d.%s and segment %d.%s are the same Point object" % (seen[k][0], seen[k][1], i, n)
+            seen[k] = (i, n)
+    return None
+
+
 def install_path_invariants(S, key_prefix="hook/path-links"):
     """post-condition of every Path mutator: neighbours linked, closes return home"""
 
@@ -70,6 +91,10 @@ def install_path_invariants(S, key_prefix="hook/path-links"):
             msg = check_path_links(S, path, max(0, n - 2), n) if local else (check_path_links(S, path) if n <= 400 else None)
             if msg:
                 active().violation("%s/%s" % (key_prefix, name), "after Path.%s: %s" % (name, msg), monitor="path-links")
+            if not local or n <= 64:
+                msg = check_no_internal_alias(S, path)
+                if msg:
+                    active().violation("hook/path-internal-alias/%s" % name, "after Path.%s: %s" % (name, msg), monitor="path-links")
 
         return post
 
